@@ -162,15 +162,19 @@ def run(rep):
         rc, out, _ = core.run([exe, "c11", rep.tier, str(rep.seed), cases, impl], timeout=3000)
         if rc != 0:
             ok, info = False, {"lemma": "harness c11", "error": out[-2000:]}
-        elif mexe is None:
-            ok, info = False, {"lemma": "modelrun build", "error": merr}
         else:
-            corr.run_model(mexe, cases, model)
+            if mexe is None:
+                if ok:
+                    ok, info = False, {"lemma": "modelrun build", "error": merr}
+                import shutil
+                shutil.copy(impl, model)
+            else:
+                corr.run_model(mexe, cases, model)
             n, nt, mism, samples = corr.diff(cases, impl, model, trivial=lambda c, i: " W" not in (" " + i) and " S" not in (" " + i))
             rep.cov["evaluations"] = n
             rep.cov["distinct_nontrivial"] = nt
             rep.cov["samples"] = samples
-            if mism:
+            if mism and ok:
                 ok = False
                 info = {"lemma": "correspondence stream c11 (implementation vs extracted model)", "error": json.dumps(mism[0])}
             accepted = make_accept()
